@@ -1,7 +1,184 @@
 import ScVerif.Base.Line
-/-! Driver handler for C10 (stub: replaced by the property's owner). -/
+import ScVerif.C10.Bus
+/-!
+Driver handler for C10: an *acceptor* over the bus model (K4 tie) and the pipeline model.
+
+The harness drives the real code through the yield points; after each macro move it reports what it
+observes (where each goroutine is parked or blocked, what each consumer has received).  The driver
+keeps the set of model configurations consistent with the observations so far; a macro move maps each
+to all configurations reachable by letting the released goroutines run to their next yield point or
+blocking operation (every interleaving, every `select` choice); the observation filters the set.  An
+observation that empties the set is a disagreement.  Nothing here is proved about (I/O glue).
+-/
 namespace ScVerif.C10
 
-def handle (_toks : List String) : String := "!bad-op"
+open ScVerif.Line
+
+/-- model configuration + which sender goroutines are currently released by the harness -/
+structure HConfig where
+  c : Config
+  go : Nat → Bool        -- sender released (runs until its next yield point)
+  aft : Nat → Bool       -- sender parked at `bus.send.afterSnapshot`
+  nS : Nat
+  nL : Nat
+
+def showEv (e : Ev) : String := s!"{e.sender}.{e.seq}"
+
+def showWPc : WPc → String
+  | .none => "n" | .await => "a" | .enter => "e" | .wait => "w" | .locked => "L" | .closing => "C"
+  | .unlock => "U" | .done => "d"
+
+def showLPc : LPc → String | .init => "-" | .spawned => "p" | .registered => "+"
+
+def showSel : Sel → String | .delivered => "d" | .listenCancelled => "l" | .sendCancelled => "s"
+
+def showResults (rs : List Bool) : String := String.join (rs.map fun b => if b then "T" else "F")
+
+/-- what the harness can observe of sender `t` -/
+def obsSender (h : HConfig) (t : Nat) : String :=
+  let S := h.c.ss t
+  let st :=
+    match S.pc with
+    | .idle => "i"
+    | .loop => if h.aft t then "a" else if h.go t then (if S.rest = [] then "?" else "r") else "b"
+    | .rlocked => "s"
+    | .selected _ => "?"
+    | .gc => "?"
+  s!"S{t}={st}:{showResults S.results}"
+
+def obsListener (h : HConfig) (l : Nat) : String :=
+  let L := h.c.ls l
+  let evs := ",".intercalate (L.recvd.map showEv)
+  let pend := if L.rcvReady then "?" else ""
+  let cl := if L.sawClose then "x" else ""
+  s!"L{l}={showLPc L.lpc}{showWPc L.wpc}[{evs}]{pend}{cl}"
+
+def obs (h : HConfig) : String :=
+  ";".intercalate ((List.range h.nS).map (obsSender h) ++ (List.range h.nL).map (obsListener h))
+
+def showNats (xs : List Nat) : String := ",".intercalate (xs.map toString)
+
+/-- complete rendering (identity of a configuration inside the frontier) -/
+def full (h : HConfig) : String :=
+  let ss := (List.range h.nS).map fun t =>
+    let S := h.c.ss t
+    let pc := match S.pc with
+      | .idle => "i" | .loop => "l" | .rlocked => "r" | .selected o => "s" ++ showSel o | .gc => "g"
+    s!"{pc}/{S.cur}/{S.todo}/{showNats S.visited}/{showNats S.rest}/{S.needGc}/{S.ctxDone}/{h.go t}/{h.aft t}"
+  let ls := (List.range h.nL).map fun l =>
+    let L := h.c.ls l
+    s!"{L.cancelled}/{L.closed}/{L.isNil}/{showNats L.readers}/{L.wWait}/{L.wHeld}"
+  obs h ++ "#" ++ " ".intercalate ss ++ "#" ++ " ".intercalate ls ++ "#" ++ showNats h.c.bus ++ s!"#{h.c.panicked}"
+
+/-- internal moves: those the released goroutines can take without the harness -/
+def internalMoves (h : HConfig) : List Move :=
+  let sm := (List.range h.nS).flatMap fun t =>
+    if h.go t then
+      match (h.c.ss t).pc with
+      | .loop => if (h.c.ss t).rest = [] then [Move.sFinish t] else [Move.sAcquire t]
+      | .rlocked => [Move.sDeliver t, Move.sListenCancelled t, Move.sSendCancelled t]
+      | .selected _ => [Move.sRelease t]
+      | .gc => [Move.sCollect t]
+      | .idle => []
+    else []
+  let wm := (List.range h.nL).flatMap fun l =>
+    match (h.c.ls l).wpc with
+    | .await => [Move.wAwake l]
+    | .wait => [Move.wLockAcq l]
+    | .locked => [Move.wClose l]
+    | .closing => [Move.wNil l]
+    | .unlock => [Move.wUnlock l]
+    | _ => []
+  sm ++ wm
+
+/-- after a sender step: parked again at `beforeListener`, or back in the harness -/
+def afterMove (h : HConfig) (c' : Config) (m : Move) : HConfig :=
+  match m with
+  | .sRelease t | .sFinish t | .sCollect t =>
+    let S := c'.ss t
+    let parked := (S.pc = .loop ∧ S.rest ≠ []) ∨ S.pc = .idle
+    { h with c := c', go := if parked then upd h.go t false else h.go }
+  | _ => { h with c := c' }
+
+def succs (h : HConfig) : List HConfig :=
+  (internalMoves h).filterMap fun m => (step h.c m).map fun c' => afterMove h c' m
+
+/-- all quiescent configurations reachable by internal moves (depth-first, with a seen set) -/
+def settle : Nat → List HConfig → List String → List HConfig → List HConfig
+  | 0, _, _, done => done
+  | _, [], _, done => done
+  | fuel + 1, h :: work, seen, done =>
+    let key := full h
+    if seen.contains key then settle fuel work seen done
+    else
+      match succs h with
+      | [] => settle fuel work (key :: seen) (h :: done)
+      | ss => settle fuel (ss ++ work) (key :: seen) done
+
+def settleAll (hs : List HConfig) : List HConfig := settle 20000 hs [] []
+
+/-- a macro move of the harness applied to one configuration (`none` = not applicable there) -/
+def macroStep (h : HConfig) : List String → Option HConfig
+  | ["send", t] => do
+    let t ← parseNat? t
+    let c' ← step h.c (.sSnapshot t)
+    some { h with c := c', aft := upd h.aft t true, go := upd h.go t false }
+  | ["S", t] => do
+    let t ← parseNat? t
+    let S := h.c.ss t
+    if S.pc = .loop ∧ h.go t = false then
+      if h.aft t then some { h with aft := upd h.aft t false, go := upd h.go t (decide (S.rest = [])) }
+      else some { h with go := upd h.go t true }
+    else none
+  | ["cancel", l] => do
+    let l ← parseNat? l
+    (step h.c (.cancel l)).map fun c' => { h with c := c' }
+  | ["cancelSend", t] => do
+    let t ← parseNat? t
+    (step h.c (.cancelSend t)).map fun c' => { h with c := c' }
+  | ["recv", l] => do
+    let l ← parseNat? l
+    (step h.c (.recvReq l)).map fun c' => { h with c := c' }
+  | ["listen", l] => do
+    let l ← parseNat? l
+    (step h.c (.lSpawn l)).map fun c' => { h with c := c' }
+  | ["R", l] => do
+    let l ← parseNat? l
+    (step h.c (.lRegister l)).map fun c' => { h with c := c' }
+  | ["W", l] => do
+    let l ← parseNat? l
+    (step h.c (.wLockReq l)).map fun c' => { h with c := c' }
+  | _ => none
+
+def dedupObs (hs : List HConfig) : List String :=
+  hs.foldl (fun acc h => let o := obs h; if acc.contains o then acc else acc ++ [o]) []
+
+structure DState where
+  frontier : List HConfig := []
+
+/--
+Requests:
+* `init nS nL todo0,todo1,…`            → `ok`
+* `op <observed> <macro…>`              → `ok <observed>` if some model successor shows exactly this
+                                           observation, else `no <obs1>|<obs2>|…` (what the model allows)
+* `panicked`                            → `true` if any configuration of the frontier has panicked
+-/
+def handleS (st : DState) (toks : List String) : DState × String :=
+  match toks with
+  | ["init", nS, nL, todo] =>
+    match parseNat? nS, parseNat? nL, parseIntList? todo with
+    | some nS, some nL, some td =>
+      let tdf := fun t => (td.getD t 0).toNat
+      ({ st with frontier := [{ c := init tdf, go := fun _ => false, aft := fun _ => false, nS := nS, nL := nL }] }, "ok")
+    | _, _, _ => (st, "!bad-op")
+  | "op" :: observed :: mac =>
+    let next := settleAll (st.frontier.filterMap fun h => macroStep h mac)
+    if next.isEmpty then (st, "!bad-op")
+    else
+      let keep := next.filter fun h => obs h == observed
+      if keep.isEmpty then ({ st with frontier := next }, "no " ++ "|".intercalate (dedupObs next))
+      else ({ st with frontier := keep }, "ok " ++ observed)
+  | ["panicked"] => (st, showBool (st.frontier.any fun h => h.c.panicked))
+  | _ => (st, "!bad-op")
 
 end ScVerif.C10
